@@ -34,6 +34,13 @@ def run_case(ctx, mr, case):
         ctx.diff('oracle', 'ncch-open-raises', case, 'a reader', pyenv.errname(ex) + ': ' + str(ex)[:100], f'well-formed NCCH rejected ({pyenv.errname(ex)})')
         return
     try:
+        if spec['dseed'] % 3 == 0:
+            # load_sections() is public: calling it again describes the same container, not a longer one
+            try:
+                r.load_sections()
+                ctx.stat('sections_loaded_twice')
+            except Exception as ex:
+                ctx.diff('oracle', 'ncch-reload-raises', case, 'the same sections', pyenv.errname(ex), 'a second load_sections() raised')
         for name in nc.SEC_NAMES:
             if name not in info['plain']:
                 if name != 'header' and nc.sec_enum(name) in r.sections:
